@@ -116,6 +116,44 @@ std::string downcastProblem(const SyntaxTree* tree, const SyntaxNode* n)
     return "";
 }
 
+// ---- the reported kind against the token that introduces the construct (C14: "agrees with its reported kind"; specification table,
+// 6.8.1-6.8.6, 6.5.3.4): the FIRST token a node of this kind owns itself (none when error recovery left it without)
+struct Introducer { SyntaxKind node; SyntaxKind tok; };
+const Introducer kIntroducers[] = {
+    { SyntaxKind::IfStatement, SyntaxKind::Keyword_if }, { SyntaxKind::SwitchStatement, SyntaxKind::Keyword_switch },
+    { SyntaxKind::WhileStatement, SyntaxKind::Keyword_while }, { SyntaxKind::DoStatement, SyntaxKind::Keyword_do },
+    { SyntaxKind::ForStatement, SyntaxKind::Keyword_for }, { SyntaxKind::GotoStatement, SyntaxKind::Keyword_goto },
+    { SyntaxKind::ContinueStatement, SyntaxKind::Keyword_continue }, { SyntaxKind::BreakStatement, SyntaxKind::Keyword_break },
+    { SyntaxKind::ReturnStatement, SyntaxKind::Keyword_return }, { SyntaxKind::CompoundStatement, SyntaxKind::OpenBraceToken },
+    { SyntaxKind::CaseLabelStatement, SyntaxKind::Keyword_case }, { SyntaxKind::DefaultLabelStatement, SyntaxKind::Keyword_default },
+    { SyntaxKind::IdentifierLabelStatement, SyntaxKind::IdentifierToken }, { SyntaxKind::ExtGNU_AsmStatement, SyntaxKind::Keyword_ExtGNU___asm__ },
+    { SyntaxKind::SizeofExpression, SyntaxKind::Keyword_sizeof }, { SyntaxKind::AlignofExpression, SyntaxKind::Keyword__Alignof },
+    { SyntaxKind::GenericSelectionExpression, SyntaxKind::Keyword__Generic }, { SyntaxKind::StaticAssertDeclaration, SyntaxKind::Keyword__Static_assert },
+    { SyntaxKind::StructTypeSpecifier, SyntaxKind::Keyword_struct }, { SyntaxKind::UnionTypeSpecifier, SyntaxKind::Keyword_union },
+    { SyntaxKind::EnumTypeSpecifier, SyntaxKind::Keyword_enum }, { SyntaxKind::ConstQualifier, SyntaxKind::Keyword_const },
+    { SyntaxKind::VolatileQualifier, SyntaxKind::Keyword_volatile }, { SyntaxKind::RestrictQualifier, SyntaxKind::Keyword_restrict },
+    { SyntaxKind::VoidTypeSpecifier, SyntaxKind::Keyword_void }, { SyntaxKind::TypedefStorageClass, SyntaxKind::Keyword_typedef },
+    { SyntaxKind::ExternStorageClass, SyntaxKind::Keyword_extern }, { SyntaxKind::StaticStorageClass, SyntaxKind::Keyword_static },
+    { SyntaxKind::RegisterStorageClass, SyntaxKind::Keyword_register }, { SyntaxKind::AutoStorageClass, SyntaxKind::Keyword_auto },
+};
+
+std::string introducerProblem(const SyntaxTree* tree, const SyntaxNode* n)
+{
+    for (auto& in : kIntroducers) {
+        if (in.node != n->kind()) continue;
+        for (auto& h : n->childNodesAndTokens()) {
+            if (h.variant() != SyntaxHolder::Variant::Token || h.tokenIndex() == LexedTokens::invalidIndex()) continue;
+            auto tk = tree->tokenAt(h.tokenIndex());
+            if (tk.kind() == SyntaxKind::Keyword_ExtGNU___extension__) continue;      // the GNU flag a declaration / expression may carry in front
+            // alternative spellings of one keyword lex to the same kind; digraphs likewise
+            if (tk.kind() != in.tok) return std::string(kindStr(n->kind())) + "/" + kindStr(tk.kind());
+            return "";
+        }
+        return "";
+    }
+    return "";
+}
+
 struct Dumper {
     const SyntaxTree* tree;
     std::map<unsigned, unsigned> idxByByteOffset;
@@ -221,6 +259,10 @@ static int treeMain(const std::vector<std::string>&, std::istream& in, std::ostr
         for (auto& kv : d.id) {
             std::string pr = downcastProblem(tree.get(), kv.first);
             if (!pr.empty()) { if (!dcBad) dcFirst = pr; ++dcBad; }
+            if (dcBad == 0) {
+                std::string ip = introducerProblem(tree.get(), kv.first);
+                if (!ip.empty()) { dcFirst = "introducer:" + ip; ++dcBad; }
+            }
             ClassNamer cn(tree.get());
             kv.first->dispatchVisit(&cn);
             std::string k = kindStr(kv.first->kind());
